@@ -49,7 +49,7 @@ def add_refs(pairs):
     return pairs
 
 
-def name_default(pairs):
+def name_default(pairs, bare=False):
     """call the first rule of each given program `default` (every reference to it too)"""
     def ren(o, old):
         if isinstance(o, dict):
@@ -64,16 +64,35 @@ def name_default(pairs):
         rules = c["prog"]["rules"]
         if not rules or any(r["n"] == "default" for r in rules):
             continue
+        if bare:
+            # prefer a rule that can be written as bare clauses; it has to come first in the file
+            def simple(r):
+                return (not r["w"] and not r["lets"] and r["b"] and all(all(x["c"] == "gac" for x in line) for line in r["b"])
+                        and sum(1 for y in rules if y["n"] == r["n"]) == 1)
+            cand = [x for x in range(len(rules)) if simple(rules[x])]
+            if cand:
+                rules.insert(0, rules.pop(cand[0]))
         old = rules[0]["n"]
         for r in rules:
             if r["n"] == old:
                 r["n"] = "default"
         ren(c["prog"], old)
-    lines = "\n".join(json.dumps({"prog": c["prog"], "doc": None}) for c in pairs)
+    # written as bare clauses (the implicit default rule) where the body allows it and the rule is not
+    # referred to by name (the implicit rule is named <file>/default)
+    def referenced(o):
+        if isinstance(o, dict):
+            return (o.get("c") == "named" and o.get("n") == "default") or any(referenced(v) for v in o.values())
+        return isinstance(o, list) and any(referenced(v) for v in o)
+    lines = "\n".join(json.dumps({"prog": c["prog"], "doc": None, "style": {"bare": bare and not referenced(c["prog"]) and c["prog"]["rules"][0]["n"] == "default"}}) for c in pairs)
     out = gv(["render-many"], input=lines)
-    texts = [json.loads(l)["rules"] for l in out.split("\n") if l.strip()]
-    for c, t in zip(pairs, texts):
-        c["rules"] = t
+    rs = [json.loads(l) for l in out.split("\n") if l.strip()]
+    for c, r in zip(pairs, rs):
+        c["rules"] = r["rules"]
+        c["bare_default"] = bool(bare and r["bare_ok"] and not referenced(c["prog"]) and c["prog"]["rules"][0]["n"] == "default"
+                                 and sum(1 for x in c["prog"]["rules"] if x["n"] == "default") == 1)
+        if bare and not c["bare_default"]:
+            # could not be written bare after all: keep the explicit rule
+            c["rules"] = json.loads(gv(["render-many"], input=json.dumps({"prog": c["prog"], "doc": None})).strip())["rules"]
     return pairs
 
 
